@@ -47,7 +47,7 @@ func runRequest(rc *core.RunCtx) {
 	nresp := g.Range(1, 2)
 	var targets []string
 	for i := 0; i < nresp; i++ {
-		sp := &Spec{Kind: "resp", ID: fmt.Sprintf("r%d", i), MaxRestarts: 1, InboxSize: []int{1024, 1, 4}[g.IntN(3)], PanicInit: map[int]bool{}, PanicStarted: map[int]bool{}, PanicStopped: map[int]bool{}}
+		sp := &Spec{Kind: "resp", ID: fmt.Sprintf("r%d", i), MaxRestarts: 3, InboxSize: []int{1024, 1, 4}[g.IntN(3)], PanicInit: map[int]bool{}, PanicStarted: map[int]bool{}, PanicStopped: map[int]bool{}}
 		env.Spawn(sp)
 		targets = append(targets, sp.FullID())
 	}
@@ -58,6 +58,18 @@ func runRequest(rc *core.RunCtx) {
 	}
 	timeouts := []time.Duration{time.Millisecond, 5 * time.Millisecond, 100 * time.Millisecond}
 	var recs []*reqRec
+	crashes := 0
+	// a client that sends the responders ordinary, sender-less messages asking
+	// them to "respond": Respond has nobody to answer, and must not answer anyone
+	var noise []*UMsg
+	var noiseTo []string
+	for i, n := 0, g.Pick(5, 2, 2, 1); i < n; i++ {
+		m := env.NewMsg("noise", i)
+		m.Op, m.K = cRespond, 1
+		m.Delay = time.Duration(g.IntN(3)) * time.Millisecond
+		noise = append(noise, m)
+		noiseTo = append(noiseTo, targets[g.IntN(len(targets))])
+	}
 	scripts := make([][]*reqRec, nreq)
 	for r := range scripts {
 		for i := 0; i < per; i++ {
@@ -70,8 +82,18 @@ func runRequest(rc *core.RunCtx) {
 			}
 			m := env.NewMsg(fmt.Sprintf("q%d", r), i)
 			m.Op = cRespond
+			if g.Bool(0.2) {
+				p.replies = g.Range(2, 3)
+				m.Scatter = true
+			}
 			m.K = p.replies
 			m.Delay = p.delay
+			if crashes < 2 && p.target != "resp/ghost" && g.Bool(0.08) {
+				// the responder crashes while handling the request: nobody replies
+				crashes++
+				p.replies = 0
+				m.Op, m.K, m.Scatter = cPanic, 0, false
+			}
 			rec := &reqRec{plan: p, msg: m}
 			scripts[r] = append(scripts[r], rec)
 			recs = append(recs, rec)
@@ -93,6 +115,15 @@ func runRequest(rc *core.RunCtx) {
 		}
 	}
 	finished := 0
+	if len(noise) > 0 {
+		rc.Scen("noise client: %v to %v", noise, noiseTo)
+		simrt.Go("noise", func() {
+			for i, m := range noise {
+				env.E.Send(actor.NewPID("local", noiseTo[i]), m)
+				simrt.Sleep(time.Duration(1+i) * time.Millisecond)
+			}
+		})
+	}
 	for r := range scripts {
 		r := r
 		simrt.Go(fmt.Sprintf("requester%d", r), func() {
@@ -124,6 +155,11 @@ func runRequest(rc *core.RunCtx) {
 		if rp, ok := dl.Message.(*Reply); ok && dl.Target != nil {
 			dlFor[dl.Target.ID]++
 			dlReply[rp.Req]++
+			for _, m := range noise {
+				if m.ID == rp.Req {
+					rc.Violate("reply-to-senderless-message", "%s was sent without a sender, yet a reply to it was sent to %s", m, pidStr(dl.Target))
+				}
+			}
 		}
 	}
 	for _, q := range recs {
@@ -201,6 +237,6 @@ func cfgReq(cfg *simrt.Config, tier string) {
 
 func init() {
 	core.Register(&core.Profile{Property: "C11", Name: "request", Weight: 4, Cfg: cfgReq, Run: runRequest,
-		Doc: "one real Engine; 1-4 concurrent requester tasks x 1-5 requests with unique payloads to 1-2 responders (or nobody); responder replies 0/1/2 times after a delay of 0..2x the timeout on the simulated clock; requesters stall 0..2x the timeout before Result() so reply and timeout race (select choice made by the scheduler; clock may jump while tasks are stalled); oracle: Result returns value xor error, a value is a reply to that very request, an error only at simulated time >= call+timeout, Result returns by quiescence, the response PID is unregistered afterwards whichever branch won, each reply sent after Result returned becomes exactly one dead letter and reaches no actor",
+		Doc: "one real Engine; 1-4 concurrent requester tasks x 1-5 requests with unique payloads to 1-2 responders (or nobody); responder replies 0-3 times (from its Receive or scattered over several tasks) or crashes on the request (restart), a noise client sends sender-less respond commands; replies come after a delay of 0..2x the timeout on the simulated clock; requesters stall 0..2x the timeout before Result() so reply and timeout race (select choice made by the scheduler; clock may jump while tasks are stalled); oracle: Result returns value xor error, a value is a reply to that very request, an error only at simulated time >= call+timeout, Result returns by quiescence, the response PID is unregistered afterwards whichever branch won, each reply sent after Result returned becomes exactly one dead letter and reaches no actor",
 		Faults: []string{"late reply", "duplicate reply", "stalled requester", "clock jump while runnable", "request to unknown PID"}})
 }
